@@ -225,15 +225,39 @@ def guard_block(a):
     a.note_cut("eval_guard_block_clause", ex)
 
 
+def _fold(outs, some):
+    f, p_ = "FAIL" in outs, "PASS" in outs
+    if some:
+        return "PASS" if p_ else ("FAIL" if f else "SKIP")
+    return "FAIL" if f else ("PASS" if p_ else "SKIP")
+
+
+def _body(outs, keyexpr):
+    """block body whose status for the i-th selected value (distinguished by `keyexpr == i+1`) is outs[i]"""
+    lines = []
+    for i, o in enumerate(outs):
+        if o == "PASS":
+            lines.append(f"when {keyexpr} == {i + 1} {{ {keyexpr} >= 0 }}")
+        elif o == "FAIL":
+            lines.append(f"when {keyexpr} == {i + 1} {{ {keyexpr} == 99 }}")
+    if not lines:
+        lines.append(f"when {keyexpr} == 99 {{ {keyexpr} == 1 }}")
+    return "\n    ".join(lines)
+
+
 def replay_guard_block(a):
+    """query blocks over two values with every combination of per-value block outcomes x all / some, plus the
+    empty-selection and unresolved-value cases"""
+    import itertools
     exe = a.cli()
     if not exe:
         return {"reproduced": False, "note": "native build failed"}
     data = '{"L": [ {"x": 1}, {"x": 2} ],\n "E": [],\n "M": [ {"x": 1}, {"y": 1} ]}\n'
-    cases = [("L[*] { x == 1 }", "FAIL"), ("some L[*] { x == 1 }", "PASS"), ("L[*] { x >= 1 }", "PASS"),
-             ("some L[*] { x == 3 }", "FAIL"), ("L[ x == 9 ] { x == 1 }", "SKIP"), ("L[ x == 9 ] !empty { x == 1 }", "FAIL"),
-             ("M[*].x { this == 1 }", "FAIL"), ("some M[*].x { this == 1 }", "PASS"),
-             ("L[*] { when x == 9 { x == 1 } }", "SKIP"), ("some L[*] { when x == 1 { x == 1 } }", "PASS")]
+    cases = [("L[ x == 9 ] { x == 1 }", "SKIP"), ("L[ x == 9 ] !empty { x == 1 }", "FAIL"),
+             ("M[*].x { this == 1 }", "FAIL"), ("some M[*].x { this == 1 }", "PASS"), ("some M[*].x { this == 5 }", "FAIL")]
+    for outs in itertools.product(("PASS", "FAIL", "SKIP"), repeat=2):
+        for some in (False, True):
+            cases.append((("some " if some else "") + "L[*] {\n    " + _body(outs, "x") + "\n  }", _fold(outs, some)))
     return a.replay_cases(exe, data, cases)
 
 
@@ -308,16 +332,18 @@ def type_block(a):
 
 
 def replay_type_block(a):
+    """type blocks over two resources with every combination of per-resource outcomes, with and without `when`"""
+    import itertools
     exe = a.cli()
     if not exe:
         return {"reproduced": False, "note": "native build failed"}
     data = ('{"Resources": {\n "a": {"Type": "AWS::S3::Bucket", "Properties": {"x": 1}},\n'
             ' "b": {"Type": "AWS::S3::Bucket", "Properties": {"x": 2}},\n "c": {"Type": "AWS::SQS::Queue", "Properties": {"x": 1}}}}\n')
-    cases = [("AWS::S3::Bucket { Properties.x == 1 }", "FAIL"), ("AWS::S3::Bucket { Properties.x >= 1 }", "PASS"),
-             ("AWS::SQS::Queue { Properties.x == 1 }", "PASS"), ("AWS::EC2::Instance { Properties.x == 1 }", "SKIP"),
+    cases = [("AWS::SQS::Queue { Properties.x == 1 }", "PASS"), ("AWS::EC2::Instance { Properties.x == 1 }", "SKIP"),
              ("AWS::S3::Bucket when Resources.a.Properties.x == 2 { Properties.x == 7 }", "SKIP"),
-             ("AWS::S3::Bucket when Resources.a.Properties.x == 1 { Properties.x == 7 }", "FAIL"),
-             ("AWS::S3::Bucket { when Properties.x == 9 { Properties.x == 7 } }", "SKIP")]
+             ("AWS::S3::Bucket when Resources.a.Properties.x == 1 { Properties.x == 7 }", "FAIL")]
+    for outs in itertools.product(("PASS", "FAIL", "SKIP"), repeat=2):
+        cases.append(("AWS::S3::Bucket {\n    " + _body(outs, "Properties.x") + "\n  }", _fold(outs, False)))
     return a.replay_cases(exe, data, cases)
 
 
@@ -470,7 +496,9 @@ def flip_closure(a):
                     "value / value-in comparison becomes Success with the same operands; NotComparable and unresolved operands are "
                     "returned unchanged (they stay FAIL under negation); list-in / query-in Fail outcomes become Success or Fail")
     if c:
-        c["replay"] = replay_binary(a)
+        c["replay"] = replay_negation(a)
+        if not c["replay"].get("reproduced"):
+            c["replay"] = replay_binary(a)
         c["reproduced"] = c["replay"].get("reproduced", False)
         a.candidates.append(c)
 
@@ -492,7 +520,8 @@ def negated_compare_wrapper(a):
             bad.append(pc_term(p.pc))
             continue
         argv = cs[0][2]
-        order_ok = len(argv) == 3 and argv[1] == lhs and argv[2] == rhs
+        # the comparison is made by the clause's own operator (self.0), on (lhs, rhs) in that order
+        order_ok = len(argv) == 3 and argv[1] == lhs and argv[2] == rhs and argv[0] == field(ex, ex.arg_env["_1"], 0, "CmpOperator")
         ctag, evr = cs[0][3][2], cs[0][3][3]["Ok"]
         d = disc(ex, evr)
         okv = r[3].get("Ok")
@@ -515,7 +544,9 @@ def negated_compare_wrapper(a):
                     "(op, not).compare(lhs, rhs) calls op.compare(lhs, rhs) once with the operands in that order; an Err is passed on; "
                     "Skip stays Skip; without `not` the result vector is returned as is, with `not` it is rebuilt by the flipping closure")
     if c:
-        c["replay"] = replay_binary_ord(a)
+        c["replay"] = replay_negation(a)
+        if not c["replay"].get("reproduced"):
+            c["replay"] = replay_binary_ord(a)
         if not c["replay"].get("reproduced"):
             c["replay"] = replay_binary(a)
         c["reproduced"] = c["replay"].get("reproduced", False)
@@ -572,6 +603,32 @@ def operator_dispatch(a):
         c["replay"] = replay_binary_ord(a)
         c["reproduced"] = c["replay"].get("reproduced", False)
         a.candidates.append(c)
+
+
+def replay_negation(a):
+    """prefix `not` / `!` on every binary operator against a value below / equal / above the document's value, and
+    the operator-level forms: the negated clause is PASS exactly when the plain clause is FAIL"""
+    exe = a.cli()
+    if not exe:
+        return {"reproduced": False, "note": "native build failed"}
+    data = '{"X": 1,\n "S": "b"}\n'
+    import operator
+    ops = {"<": operator.lt, "<=": operator.le, ">": operator.gt, ">=": operator.ge, "==": operator.eq, "!=": operator.ne}
+    cases = []
+    for sym, f in ops.items():
+        for v in (0, 1, 2):
+            truth = f(1, v)
+            cases.append((f"X {sym} {v}", "PASS" if truth else "FAIL"))
+            cases.append((f"not X {sym} {v}", "FAIL" if truth else "PASS"))
+            cases.append((f"!X {sym} {v}", "FAIL" if truth else "PASS"))
+    for v, truth in (("[0, 1]", True), ("[0, 2]", False)):
+        cases += [(f"X in {v}", "PASS" if truth else "FAIL"), (f"X not in {v}", "FAIL" if truth else "PASS"),
+                  (f"not X in {v}", "FAIL" if truth else "PASS"), (f"not X not in {v}", "PASS" if truth else "FAIL")]
+    for sym, f in ops.items():
+        for v in ("a", "b", "c"):
+            truth = f("b", v)
+            cases.append((f'not S {sym} "{v}"', "FAIL" if truth else "PASS"))
+    return a.replay_cases(exe, data, cases)
 
 
 def replay_binary_ord(a):
